@@ -226,6 +226,35 @@ func runRabin(r rcfg) *rout {
 				cp[len(cp)-1] = ed.Point().Add(cp[len(cp)-1], ed.Point().Base())
 				sc.Commitments = cp
 			}
+			if strings.HasPrefix(fk, "secret-commits-wrong-for-one") {
+				// F' = F + q*G where q vanishes at the evaluation points of t-1 honest participants but not at the victim's:
+				// only the victim can see that the announced commitments do not match its share
+				q := []kyber.Scalar{ed.Scalar().SetInt64(3)} // q = 3 * prod (x - x_a)
+				cnt := 0
+				for a := 0; a < n && cnt < t-1; a++ {
+					if a == nd.idx || a == victim {
+						continue
+					}
+					xa := ed.Scalar().SetInt64(int64(a + 1))
+					nq := make([]kyber.Scalar, len(q)+1)
+					for i := range nq {
+						nq[i] = ed.Scalar().Zero()
+					}
+					for i, co := range q {
+						nq[i+1] = ed.Scalar().Add(nq[i+1], co)
+						nq[i] = ed.Scalar().Sub(nq[i], ed.Scalar().Mul(co, xa))
+					}
+					q = nq
+					cnt++
+				}
+				if cnt == t-1 && len(q) <= len(cm) {
+					cp := append([]kyber.Point{}, cm...)
+					for i, co := range q {
+						cp[i] = ed.Point().Add(cp[i], ed.Point().Mul(co, nil))
+					}
+					sc.Commitments = cp
+				}
+			}
 			sc.Signature, _ = schnorr.Sign(rsuite("sc"), nd.long, sc.Hash(ed))
 			scs = append(scs, sc)
 			o.secret0[nd.idx] = sc.Commitments[0]
@@ -261,6 +290,18 @@ func runRabin(r rcfg) *rout {
 			if err == nil && rc != nil && !nd.faulty {
 				rcs = append(rcs, rc)
 			}
+		}
+	}
+	if F != nil && strings.HasSuffix(fk, "-share") && len(ccs) > 0 {
+		// the deviating dealer takes part in the reconstruction of its own polynomial, with its true share or a bogus one
+		if pd, err := F.raw.PlaintextDeal(F.idx); err == nil {
+			sh := &share.PriShare{I: pd.SecShare.I, V: pd.SecShare.V.Clone()}
+			if strings.HasSuffix(fk, "+reveals-bogus-share") {
+				sh.V = ed.Scalar().Add(sh.V, ed.Scalar().One())
+			}
+			rc := &rdkg.ReconstructCommits{SessionID: F.raw.SessionID(), Index: uint32(F.idx), DealerIndex: uint32(F.idx), Share: sh}
+			rc.Signature, _ = schnorr.Sign(rsuite("rc"), F.long, rc.Hash(rsuite("rc-hash")))
+			rcs = append(rcs, rc)
 		}
 	}
 	for ni, nd := range nodes {
@@ -360,7 +401,7 @@ func judgeRabin(x *vf.Ctx, c *vf.Check, r rcfg, o *rout, pk string) {
 		}
 		sum.Add(sum, c0)
 	}
-	if okSum && r.fault.kind != "bad-secret-commits" && !sum.Equal(ref.key.Commits[0]) {
+	if okSum && r.fault.kind != "bad-secret-commits" && !strings.HasPrefix(r.fault.kind, "secret-commits-wrong-for-one") && !sum.Equal(ref.key.Commits[0]) {
 		x.Failf(pk+"/key-not-sum-of-QUAL", "%s: the public key is not the sum of the contributions of QUAL %v", id, ref.qual)
 	}
 	inQ := func(i int) bool {
@@ -411,6 +452,9 @@ func rabinJobs(c *vf.Check) []func() {
 				for tg := 0; tg < n; tg++ {
 					if tg != party {
 						fs = append(fs, fault{"bad-share", party, tg}, fault{"bad-share+no-justification", party, tg}, fault{"false-complaint", party, tg})
+						if n-1 >= t {
+							fs = append(fs, fault{"secret-commits-wrong-for-one", party, tg}, fault{"secret-commits-wrong-for-one+reveals-own-share", party, tg}, fault{"secret-commits-wrong-for-one+reveals-bogus-share", party, tg})
+						}
 					}
 				}
 			}
@@ -424,7 +468,11 @@ func rabinJobs(c *vf.Check) []func() {
 }
 
 func runRabinJob(c *vf.Check, r rcfg) {
-	pk := "C11/rabin"
+	fkey := "no-fault"
+	if r.fault.party >= 0 {
+		fkey = r.fault.kind
+	}
+	pk := "C11/rabin/" + fkey
 	var base *rout
 	c.Case(r.String(), pk, func(x *vf.Ctx) {
 		base = runRabin(r)
@@ -497,8 +545,24 @@ func runRabinJob(c *vf.Check, r rcfg) {
 
 // DebugRabin prints the completion table (development aid).
 func DebugRabin() {
+	for _, tg := range []string{"", "+reveals-own-share", "+reveals-bogus-share"} {
+		r := rcfg{n: 4, t: 3, fault: fault{"secret-commits-wrong-for-one" + tg, 0, 2}, permNode: -1}
+		o := runRabin(r)
+		s := ""
+		for _, nd := range o.nodes {
+			if nd.faulty {
+				s += " [faulty]"
+			} else if nd.key != nil {
+				e, _ := nd.key.Commits[0].MarshalBinary()
+				s += fmt.Sprintf(" ok(QUAL %v key %x)", nd.qual, e[:4])
+			} else {
+				s += fmt.Sprintf(" ERR(QUAL %v: %v)", nd.qual, nd.err)
+			}
+		}
+		fmt.Printf("%s =>%s\n", r, s)
+	}
 	for _, t := range []int{2, 3} {
-		fs := []fault{{"none", -1, 0}, {"absent", 0, 0}, {"bad-secret-commits", 0, 0}, {"bad-share", 0, 1}, {"bad-share+no-justification", 0, 1}, {"false-complaint", 0, 1}, {"false-complaint", 2, 0}}
+		fs := []fault{{"none", -1, 0}, {"absent", 0, 0}, {"bad-secret-commits", 0, 0}, {"secret-commits-wrong-for-one", 0, 1}, {"secret-commits-wrong-for-one+reveals-own-share", 0, 1}, {"secret-commits-wrong-for-one+reveals-bogus-share", 0, 1}, {"bad-share", 0, 1}, {"bad-share+no-justification", 0, 1}, {"false-complaint", 0, 1}, {"false-complaint", 2, 0}}
 		for _, f := range fs {
 			r := rcfg{n: 3, t: t, fault: f, permNode: -1}
 			o := runRabin(r)
